@@ -235,6 +235,11 @@ func (state *State) GetSession(ip netip.Addr) *Session {
 		// TODO: What to do if the storage is broken?
 		return nil
 	}
+	// Only use a stored identity that proves the requested address: the state
+	// file is read as it is, and the session binds a verification key to ip.
+	if info.Address == nil || info.Address.IP != ip || info.Address.VerifyAddress() != nil {
+		return nil
+	}
 
 	// Create, save and return session.
 	s = &Session{
